@@ -121,7 +121,11 @@ def c03(chk, thorough):
     prog2 = load_program(chk, ['pls.c', 'preprocessing.c', 'matrix.c', 'vector.c'])
     guards.zero_divisor(chk, prog2, {'preprocessing.c'})
     guards.fit_apply_agreement(chk, prog2)
+    guards.scaling_tests(chk, prog2, {'preprocessing.c', 'pls.c'})
     guards.reprojection_stats(chk, prog2)
+    from . import accum
+    accum.run(chk, prog2, {'matrix.c', 'vector.c'}, {'pls.c'})
+    chk.floor('ACC.zeroed', 8)
     chk.floor('FA.agree', 3)
     chk.floor('RP.same-stats', 1)
 
@@ -198,6 +202,8 @@ def c08(chk, thorough):
     offsets.dead_input(chk, prog, ['LDAMulticlassStatistics', 'LDAError', 'LDAPrediction', 'LDA'])
     offsets.overwritten_store(chk, prog, ['LDAMulticlassStatistics', 'LDAError', 'LDAPrediction', 'LDA'])
     offsets.argmax_rule(chk, prog, ['LDAPrediction'])
+    offsets.per_index_values(chk, prog, ['LDA', 'LDAPrediction', 'LDAError', 'LDAMulticlassStatistics'])
+    chk.floor('DF.per-index', 3)
     chk.floor('OF.argmax', 1)
     chk.floor('OF.compare', 6)
     chk.floor('OF.label-sink', 1)
@@ -229,6 +235,8 @@ def c10(chk, thorough):
     guards.preprocess_options(chk, prog)
     guards.centered_spread(chk, prog, ['MatrixColSDEV', 'MatrixColVar'])
     guards.fit_apply_agreement(chk, prog)
+    guards.scaling_tests(chk, prog, {'preprocessing.c', 'pca.c', 'cpca.c', 'clustering.c'})
+    chk.floor('G.scaling-test', 6)
     guards.option_statistics(chk, prog)
     from . import reduce
     reduce.run_columns(chk, prog)
@@ -255,8 +263,11 @@ def c15(chk, thorough):
     prog = load_program(chk, ['statistic.c', 'pls.c', 'mlr.c'])
     guards.missing_guard(chk, prog, {'statistic.c': guards.STAT_FUNCS['statistic.c']})
     guards.rmse_reaches_mse(chk, prog)
-    from . import reduce
+    from . import reduce, sorts
     reduce.run(chk, prog)
+    progm = load_program(chk, ['statistic.c', 'pls.c', 'mlr.c', 'matrix.c'])
+    sorts.run(chk, progm, (('MatrixReverseSort', True),))
+    chk.floor('SORT.shape', 1)
     chk.floor('RF.definition', 5)
     chk.floor('RF.guard', 15)
     layout.run(chk, prog, {'pls.c': ['PLSRegressionStatistics', 'PLSDiscriminantAnalysisStatistics']})
@@ -296,7 +307,7 @@ def c19(chk, thorough):
     for r_, fl in (('NM.pairing', 10), ('NM.report', 1), ('NM.monotone', 8), ('NM.sort', 1)):
         chk.floor(r_, fl)
     for r_, fl in (('SP.sweep', 2), ('SP.backsub', 2), ('SP.order', 5), ('SP.defined', 15), ('SP.natural', 4), ('SP.c0', 2), ('SP.c2', 1),
-                   ('SP.c1', 1), ('SP.lines', 2), ('SP.eval', 3), ('SP.lookup', 1), ('AR.trapezoid', 1), ('AR.sum', 1)):
+                   ('SP.c1', 1), ('SP.lines', 2), ('SP.eval', 3), ('SP.lookup', 1), ('SP.independent', 1), ('AR.trapezoid', 1), ('AR.sum', 1)):
         chk.floor(r_, fl)
     if an.n_constraints < 60:
         chk.broke('only %d dimension constraints generated, floor 60' % an.n_constraints)
@@ -344,6 +355,11 @@ def c11(chk, thorough):
     chk.assumptions = ['contracts of lsv/contracts.json', 'distinct parameters do not alias', 'LP64']
     prog = load_program(chk, ['vector.c', 'list.c', 'matrix.c', 'tensor.c', 'memwrapper.c', 'numeric.c'])
     contractmode.run(chk, prog, contractmode.C11_FUNCS, dom=4 if thorough else 3)
+    from . import sorts, guards
+    sorts.run(chk, prog)
+    chk.floor('SORT.shape', 2)
+    guards.kernel_tolerances(chk, prog, contractmode.C11_FUNCS)
+    chk.floor('K.tolerance', 5)
     if chk.extra.get('kernels', 0) < 45:
         chk.broke('only %d kernels analysed, floor 45' % chk.extra.get('kernels', 0))
     chk.floor('K.bounds', 300)
@@ -356,8 +372,10 @@ def c12(chk, thorough):
         'element of the working matrix is dominated by a test of that element or preceded, within the same pivot iteration, by a store '
         'into the pivot row (any row-exchange scheme) -- "divides by whatever is on the diagonal" fails; (E1) in the LAPACK wrappers '
         '(MatrixLUInversion, SVDlapack + conv2matrix, EVectEval) and the solvers every raw-buffer and matrix subscript is within the '
-        'allocated extent for square and rectangular shapes under the recorded contracts. NOT decided: M M^-1 = I, Penrose conditions, '
-        'A v = lambda v, reconstruction (numeric).')
+        'allocated extent for square and rectangular shapes under the recorded contracts; (E15) the product kernels only ADD into their '
+        'output (derived from their stores), so at every call in matrix.c/vector.c/tensor.c/algebra.c (pseudo-inverse, least squares, '
+        'covariance, ...) the output container must have been zeroed on every path since it was last written (ACC.zeroed) -- otherwise the '
+        'solver returns old content + solution. NOT decided: M M^-1 = I, Penrose conditions, A v = lambda v, reconstruction (numeric).')
     chk.assumptions = ['contracts of lsv/contracts.json', 'LAPACK routines write only within the documented sizes of their arguments']
     prog = load_program(chk, ['vector.c', 'list.c', 'matrix.c', 'tensor.c', 'memwrapper.c', 'numeric.c', 'algebra.c'])
     contractmode.run(chk, prog, contractmode.C12_FUNCS, dom=4 if thorough else 3)
@@ -366,6 +384,9 @@ def c12(chk, thorough):
     from .report import VERIF
     guards.magnitude_rule(chk, prog, {'matrix.c': contractmode.C12_FUNCS['matrix.c'], 'algebra.c': contractmode.C12_FUNCS['algebra.c']},
                           control=os.path.join(VERIF, 'controls', 'magnitude.c'))
+    from . import accum
+    accum.run(chk, prog, {'matrix.c', 'vector.c', 'tensor.c', 'algebra.c'}, {'matrix.c', 'vector.c', 'tensor.c', 'algebra.c'})
+    chk.floor('ACC.zeroed', 10)
     chk.floor('K.bounds', 100)
     chk.floor('G.pivot', 2)
 
